@@ -26,7 +26,17 @@ def run(prop: str, tier: str) -> int:
     try:
         idx = get_index()
         rep = Report(prop, tier)
-        explanation = mod.check(idx, rep, tier)
+        try:
+            explanation = mod.check(idx, rep, tier)
+        except AnalysisError as e:
+            # a rule group that could not be evaluated does not erase the findings of the groups that ran before it:
+            # report.finish gives a VIOLATION precedence over "cannot decide"
+            rep.analysis_errors.append(str(e))
+            explanation = (mod.__doc__ or "").strip().split("\n\n")[0] or "rule evaluation stopped early (see analysis_errors)"
+        except Exception:
+            traceback.print_exc()
+            rep.analysis_errors.append("internal error in the checker (see traceback)")
+            explanation = (mod.__doc__ or "").strip().split("\n\n")[0] or "rule evaluation stopped early (see analysis_errors)"
         if tier == "thorough":
             from . import mutprobe, selftest
 
